@@ -100,10 +100,16 @@ var CLIRunner func(ctx context.Context, cli command.Cli, argv []string, stdout i
 // simCli is the command.Cli stub: only Client() is implemented.
 type simCli struct {
 	command.Cli
-	c client.APIClient
+	c     client.APIClient
+	delay time.Duration
 }
 
-func (s *simCli) Client() client.APIClient { return s.c }
+func (s *simCli) Client() client.APIClient {
+	if s.delay > 0 {
+		time.Sleep(s.delay) // simulated time
+	}
+	return s.c
+}
 
 // ExecOpts tune one execution.
 type ExecOpts struct {
@@ -576,7 +582,7 @@ func runCLI(d *Daemon, p *Plan, out *Outcome) (res evalResult) {
 	if d.variant.StdoutFailAfter > 0 {
 		w = &failingWriter{w: &sb, left: d.variant.StdoutFailAfter}
 	}
-	res.err = CLIRunner(ctx, &simCli{c: d}, p.CLI.Argv, w)
+	res.err = CLIRunner(ctx, &simCli{c: d, delay: time.Duration(p.CLI.ClientDelayMs) * time.Millisecond}, p.CLI.Argv, w)
 	out.Stdout = sb.String()
 	return res
 }
